@@ -386,50 +386,60 @@ fn f15_example(ctx: &mut Ctx) {
     }
 }
 
-/// Growth beyond C05's wording: a two-callback chain s -> k inside an rr workload.  Every callback gets its
-/// self-consistent singleton bound; the arrival bound of k is the conservative propagation of s's curve
-/// (Propagated with jitter = the assumed bound of s, re-derived in every iteration); the claim checked for the
-/// chain is rr::rta_subchain(workload, [s, k]) as an end-to-end bound (activation of s -> completion of k).
+/// Growth beyond C05's wording: a chain of two or three callbacks s -> m -> k inside an rr / bw workload.  Every
+/// callback gets its self-consistent singleton bound; the arrival bound of a chained callback is the conservative
+/// propagation of the source's curve (Propagated with jitter = the end-to-end bound of the chain prefix that ends
+/// just before it, re-derived in every iteration); the claims checked are rta_subchain(workload, prefix) as
+/// end-to-end bounds (activation of s -> completion of the prefix's last callback) for every chain prefix.
 fn rrchain(ctx: &mut Ctx, id: u64, lim: u64, tmax: u64, cmax: u64, pmax: u64) {
     let supply = gen_supply(&mut ctx.rng, pmax);
-    let next = ctx.rng.gen_range(0..=1usize);
-    let n = next + 2;
+    let cl = if ctx.rng.gen_bool(0.35) { 3usize } else { 2 };
+    let n = cl + ctx.rng.gen_range(0..=1usize);
     let tmin = (n as u64 * cmax).saturating_sub(1).max(2);
     let kinds = ["timer", "unknown", "polled"];
+    let first = n - cl; // chain members: first .. n-1
     let mut wl: Vec<Value> = vec![];
     for j in 0..n {
-        let t = if j == n - 1 { ["unknown", "polled"][ctx.rng.gen_range(0..2)] } else { kinds[ctx.rng.gen_range(0..3)] };
+        let t = if j > first { ["unknown", "polled"][ctx.rng.gen_range(0..2)] } else { kinds[ctx.rng.gen_range(0..3)] };
         let c = ctx.rng.gen_range(1..=cmax);
         let a = gen_arr(&mut ctx.rng, tmin, tmin + tmax.min(3));
         wl.push(json!({"t": t, "p": ctx.rng.gen_range(0..=2) * 2 + (j as i64 % 2), "a": a, "c": {"k": "scalar", "c": c}, "C": c}));
     }
-    let (si, ki) = (n - 2, n - 1); // the chain: second-to-last -> last
-    let a_s = wl[si]["a"].clone();
+    let a_s = wl[first]["a"].clone();
     // the round-robin analysis and the busy-window-aware analysis bound the same executor
     for (k, op) in ["ros2_rr", "ros2_bw"].iter().enumerate() {
         let mut r: Vec<u64> = wl.iter().map(|c| u(&c["C"])).collect();
+        // e2e[m] = end-to-end bound of the chain prefix first ..= first + m (e2e[0] is the source's singleton bound)
+        let mut e2e: Vec<u64> = (0..cl).map(|m| (0..=m).map(|x| u(&wl[first + x]["C"])).sum()).collect();
         let mut converged = false;
-        let with_bounds = |r: &Vec<u64>| -> Vec<Value> {
+        let with_bounds = |r: &Vec<u64>, e2e: &Vec<u64>| -> Vec<Value> {
             (0..n)
                 .map(|j| {
                     let mut c = wl[j].clone();
                     c["R"] = json!(r[j]);
-                    if j == ki {
-                        c["a"] = json!({"k": "prop", "J": r[si], "of": a_s});
+                    if j > first {
+                        c["a"] = json!({"k": "prop", "J": e2e[j - first - 1], "of": a_s});
                     }
                     c
                 })
                 .collect()
         };
-        for _ in 0..60 {
-            let w = with_bounds(&r);
+        let call = |ctx: &Ctx, w: &Vec<Value>, sub: Vec<usize>| -> Option<u64> {
+            let inp = json!({"op": op, "supply": supply, "lim": lim, "workload": w, "sub": sub});
+            match guarded(&inp, ctx.watchdog_ms, call_ros2).get("ok").and_then(|x| x.as_u64()) {
+                Some(v) if v <= lim => Some(v),
+                _ => None,
+            }
+        };
+        for _ in 0..80 {
+            let w = with_bounds(&r, &e2e);
             let mut next_r = vec![];
+            let mut next_e = vec![];
             let mut failed = false;
             for i in 0..n {
-                let inp = json!({"op": op, "supply": supply, "lim": lim, "workload": w, "sub": [i + 1]});
-                match guarded(&inp, ctx.watchdog_ms, call_ros2).get("ok").and_then(|x| x.as_u64()) {
-                    Some(v) if v <= lim => next_r.push(v.max(r[i])),
-                    _ => {
+                match call(ctx, &w, vec![i + 1]) {
+                    Some(v) => next_r.push(v.max(r[i])),
+                    None => {
                         failed = true;
                         break;
                     }
@@ -438,30 +448,40 @@ fn rrchain(ctx: &mut Ctx, id: u64, lim: u64, tmax: u64, cmax: u64, pmax: u64) {
             if failed {
                 break;
             }
-            if next_r == r {
+            next_e.push(next_r[first].max(e2e[0]));
+            for m in 1..cl {
+                match call(ctx, &w, (first..=first + m).map(|x| x + 1).collect()) {
+                    Some(v) => next_e.push(v.max(e2e[m])),
+                    None => {
+                        failed = true;
+                        break;
+                    }
+                }
+            }
+            if failed {
+                break;
+            }
+            if next_r == r && next_e == e2e {
                 converged = true;
                 break;
             }
             r = next_r;
+            e2e = next_e;
         }
         if !converged {
             continue;
         }
-        let w = with_bounds(&r);
-        let inp = json!({"op": op, "supply": supply, "lim": lim, "workload": w, "sub": [si + 1, ki + 1]});
-        let out = guarded(&inp, ctx.watchdog_ms, call_ros2);
-        let rc = match out.get("ok").and_then(|x| x.as_u64()) {
-            Some(v) if v <= lim => v,
-            _ => continue,
-        };
+        let w = with_bounds(&r, &e2e);
         let mut cbs = vec![];
         for i in 0..n {
             let t = wl[i]["t"].as_str().unwrap();
-            let (arr, rr, cap, succ) = if i == ki {
-                (json!({"k": "chain"}), rc, cap_of(ctx, &a_s, rc as i64), 0)
+            let (arr, rr, cap) = if i > first {
+                let rc = e2e[i - first];
+                (json!({"k": "chain"}), rc, cap_of(ctx, &a_s, rc as i64))
             } else {
-                (arr_of(&wl[i]["a"]), r[i], cap_of(ctx, &wl[i]["a"], r[i] as i64), if i == si { ki + 1 } else { 0 })
+                (arr_of(&wl[i]["a"]), r[i], cap_of(ctx, &wl[i]["a"], r[i] as i64))
             };
+            let succ = if i >= first && i + 1 < n { i + 2 } else { 0 };
             cbs.push(json!({"t": if t == "timer" { "timer" } else { "polled" },
                             "prio": if t == "polled" { wl[i]["p"].as_i64().unwrap() } else { -1 },
                             "arr": arr, "succ": succ, "C": wl[i]["C"], "R": rr, "cap": cap, "w": []}));
@@ -470,7 +490,7 @@ fn rrchain(ctx: &mut Ctx, id: u64, lim: u64, tmax: u64, cmax: u64, pmax: u64) {
             continue;
         }
         ctx.sink.raw(&json!({"id": id * 2 + k as u64, "family": format!("{}_chain", op), "supply": supply, "cbs": cbs, "lim": lim, "workload": w,
-                             "singleton_bounds": r, "chain_bound": rc, "nontrivial": true}));
+                             "singleton_bounds": r, "chain_bounds": e2e, "chain_len": cl, "nontrivial": true}));
     }
 }
 
